@@ -526,6 +526,12 @@ def run(ctx):
     else:
         ctx.replayed_ok += n
     ctx.extra['violations_by_rule'] = seen
+    # the field-level contract encase's derive works from (member order, names, element types, selected representation, no stray field
+    # attribute such as #[align(..)], whatever the address space of the variable): C06's conditions, run here with encase on as well
+    saved_bounds = dict(ctx.bounds)
+    C06.run(ctx)
+    ctx.bounds = dict(saved_bounds, field_level_contract='C06 run as a sub-check (its bounds: ' + str(ctx.bounds)[:300] + ')')
+    ctx.extra['violations_by_rule'] = dict(seen, **(ctx.extra.get('violations_by_rule') or {}))
 
 
 if __name__ == '__main__':
